@@ -28,6 +28,14 @@ use digest::Digest;
 use rug::{integer::Order, Complete, Integer};
 use serde::{Deserialize, Serialize};
 
+/// Bit length of the value that blinds a secret of at most `secret_bits` bits in a response
+/// `blinding + challenge * secret`: it has to exceed `challenge * secret` (the challenge has
+/// 2t bits) by the statistical parameter lin, otherwise the response divided by the challenge,
+/// or the ratio of two responses, reveals the secret.
+fn blinding_bits<CS: CLCiphersuite>(secret_bits: u32) -> u32 {
+    secret_bits + 2 * CS::t + CS::lin
+}
+
 #[derive(Clone, PartialEq, Eq, Debug, Serialize, Deserialize)]
 pub(crate) struct NISP2Commitments {
     challenge: Integer,
@@ -65,11 +73,11 @@ impl NISP2Commitments {
         // Initialize multiple random values, equivalent to secrets m_i and stored in a list
         let mut omega: Vec<Integer> = Vec::new();
         for _i in unrevealed_message_indexes {
-            omega.push(random_bits(CS::lm));
+            omega.push(random_bits(blinding_bits::<CS>(CS::lm)));
         }
 
-        let mu_1 = random_bits(CS::ln);
-        let mu_2 = random_bits(CS::ln);
+        let mu_1 = random_bits(blinding_bits::<CS>(CS::ln));
+        let mu_2 = random_bits(blinding_bits::<CS>(CS::ln));
 
         let mut w_1 = Integer::from(1);
         let mut w_2 = Integer::from(1);
@@ -224,8 +232,9 @@ impl NISPSecrets {
         CS: CLCiphersuite,
         CS::HashAlg: Digest,
     {
-        let r1 = random_bits(CS::lm);
-        let r2 = random_bits(CS::ln);
+        // the secret is an attribute or the (ln-bit) randomness of another commitment
+        let r1 = random_bits(blinding_bits::<CS>(CS::ln));
+        let r2 = random_bits(blinding_bits::<CS>(CS::ln));
 
         let t = (Integer::from(g1.pow_mod_ref(&r1, &n1).unwrap())
             * Integer::from(h1.pow_mod_ref(&r2, &n1).unwrap()))
@@ -296,10 +305,10 @@ impl NISPMultiSecrets {
 
         let mut r1: Vec<Integer> = Vec::new();
         for _ in unrevealed_message_indexes {
-            r1.push(random_bits(CS::lm));
+            r1.push(random_bits(blinding_bits::<CS>(CS::lm)));
         }
 
-        let r2 = random_bits(CS::ln);
+        let r2 = random_bits(blinding_bits::<CS>(CS::ln));
 
         let h1 = &signer_pk.b;
         let n1 = &signer_pk.N;
@@ -452,22 +461,23 @@ impl NISPSignaturePoK {
         );
         let (_Ce, re) = (C_Ce.value(), C_Ce.randomness());
 
+        // blinding values for rw, rw * e, rx, e, s, w, w * e, re
         let (r_1, r_2, r_3, r_4, r_6, r_7, r_8, r_9) = (
-            random_bits(CS::ln),
-            random_bits(CS::ln),
-            random_bits(CS::ln),
-            random_bits(CS::ln),
-            random_bits(CS::ln),
-            random_bits(CS::ln),
-            random_bits(CS::ln),
-            random_bits(CS::ln),
+            random_bits(blinding_bits::<CS>(CS::ln)),
+            random_bits(blinding_bits::<CS>(CS::ln + CS::le)),
+            random_bits(blinding_bits::<CS>(CS::ln)),
+            random_bits(blinding_bits::<CS>(CS::le)),
+            random_bits(blinding_bits::<CS>(CS::ls)),
+            random_bits(blinding_bits::<CS>(CS::ln)),
+            random_bits(blinding_bits::<CS>(CS::ln + CS::le)),
+            random_bits(blinding_bits::<CS>(CS::ln)),
         );
 
         let mut r_5: Vec<Integer> = Vec::new();
 
         for i in 0..n_attr {
             if unrevealed_message_indexes.contains(&i) {
-                r_5.push(random_bits(CS::ln));
+                r_5.push(random_bits(blinding_bits::<CS>(CS::lm)));
             } else {
                 r_5.push(messages.get(i).expect("index overflow").value.clone());
             }
